@@ -64,7 +64,7 @@ def run_config(cfg, res):
   import carbon.protocols as P
   rec = proto.install_recorder()
   r = gen.rng(cfg['seed'], 'C01', cfg['name'])
-  ncases = (12 if cfg['tier'] == 'quick' else 40)
+  ncases = (60 if cfg['tier'] == 'quick' else 600)
 
   def report(kind, why, stream, exp, segs_desc, got):
     res.violation('%s/%s' % (cfg['proto'], kind), '%s under segmentation %s: %s; stream=%r' % (cfg['proto'], segs_desc, why, stream[:200]),
